@@ -21,9 +21,12 @@ ASSUMPTIONS = ['exhaustive optimum = DFS over all simple source->sink paths '
 def shards(tier):
     if tier == 'quick':
         return [dict(kind='paths', n=2400, parts=16, timeout=900),
-                dict(kind='huge', n=1, parts=1, timeout=900, start=900000)]
+                dict(kind='huge', n=1, parts=1, timeout=900, start=900000),
+                dict(kind='threads', n=8, parts=4, timeout=900,
+                     start=950000)]
     return [dict(kind='paths', n=64000, parts=16, timeout=3400),
-            dict(kind='huge', n=4, parts=2, timeout=3400, start=900000)]
+            dict(kind='huge', n=4, parts=2, timeout=3400, start=900000),
+            dict(kind='threads', n=200, parts=8, timeout=3400, start=950000)]
 
 
 def setup(ctx):
@@ -170,10 +173,65 @@ def run_huge(ctx, rng, idx):
     ctx.nontriv('huge', n, tuple(A), tuple(B))
 
 
+def canon_paths(res):
+    ps, fs = res
+    return ([[int(x) for x in p_] for p_ in ps],
+            [float(x) for x in np.asarray(fs, dtype=float).ravel()])
+
+
+def run_threads(ctx, rng, idx):
+    """The pathway search is pure Python with no thread-count knob, but
+    nothing stops a caller from running it for many (source, sink) pairs from
+    a thread pool: several Python threads run paths()/top_path at once (same
+    matrix size), with GIL yields injected at line boundaries inside the
+    search; every result must equal the one obtained alone."""
+    from vf.monitor import threaded_differential
+    orig_top = getattr(path.top_path, '__vf_orig__', path.top_path)
+    orig_paths = getattr(path.paths, '__vf_orig__', path.paths)
+    n = int(rng.integers(6, 25))
+    jobs, descs = [], []
+    for _ in range(int(rng.integers(6, 14))):
+        NF = np.where(rng.random((n, n)) < 0.35,
+                      rng.integers(1, 20, size=(n, n)), 0).astype(float)
+        NF[np.diag_indices(n)] = 0
+        s_ = [int(x) for x in rng.choice(n, size=2, replace=False)]
+        scheme = ['subtract', 'bottleneck'][int(rng.integers(0, 2))]
+        k = int(rng.integers(1, 5))
+        jobs.append(lambda NF=NF, s_=s_, scheme=scheme, k=k: canon_paths(
+            orig_paths([s_[0]], [s_[1]], NF, num_paths=k,
+                       remove_path=scheme)))
+        descs.append({'n': n, 'source': s_[0], 'sink': s_[1],
+                      'scheme': scheme, 'num_paths': k})
+    ctx.describe({'jobs': descs})
+    helpers = [orig_top, orig_paths]
+    for nm in ('_remove_bottleneck', '_subtract_path_flux', '_work_arrays'):
+        f = getattr(path, nm, None)
+        if f is not None:
+            helpers.append(getattr(f, '__wrapped__', f))
+    serial, thr, inj = threaded_differential(
+        jobs, helpers, seed=int(rng.integers(0, 2 ** 31)), n_threads=4)
+    ctx.count('threaded_jobs', len(jobs))
+    ctx.count('yields_injected', inj.yields)
+    if any(t is None for t in thr):
+        ctx.count('threaded_jobs_unfinished')
+        return
+    for d, a, b in zip(descs, serial, thr):
+        if a != b:
+            ctx.violation('paths.differs-under-threads',
+                          'paths(%s) alone gives %s, from one of 4 concurrent '
+                          'Python threads %s' % (d, str(a)[:160],
+                                                 str(b)[:160]))
+            break
+    if inj.yields > 50:
+        ctx.nontriv('threads', n, len(jobs), idx)
+
+
 def run_case(ctx, kind_, rng, idx):
     from vf.monitor import Frozen
     if kind_ == 'huge':
         return run_huge(ctx, rng, idx)
+    if kind_ == 'threads':
+        return run_threads(ctx, rng, idx)
     kind, NF, src, snk, conserved = gen_graph(rng)
     n = len(NF)
     # pathways are scale-equivariant: rare-event fluxes are tiny numbers
